@@ -105,6 +105,7 @@ impl<'a> UserModel<'a> {
         is_cut: bool,
     ) -> Result<(), String> {
         let mut diff_list = Vec::new();
+        let formula_marks = self.formula_marks();
         match self.paste_from_clipboard_into(
             source_sheet,
             source_range,
@@ -121,7 +122,7 @@ impl<'a> UserModel<'a> {
             }
             Err(e) => {
                 // A paste that fails half way is not recorded: take back what it already did
-                self.rollback(&diff_list);
+                self.rollback(&diff_list, &formula_marks);
                 self.evaluate_if_not_paused();
                 Err(e)
             }
@@ -637,6 +638,7 @@ impl<'a> UserModel<'a> {
         }
 
         // Clearing the target area also removes its links: capture them for undo
+        let formula_marks = self.formula_marks();
         let mut diff_list = self.range_link_diffs(&paste_area)?;
         // The clearing itself is recorded too: replaying the diffs (redo, or another
         // model applying them) must dissolve an array formula in the target before its
@@ -707,7 +709,7 @@ impl<'a> UserModel<'a> {
         Ok(())
         })();
         if let Err(e) = result {
-            self.rollback(&diff_list);
+            self.rollback(&diff_list, &formula_marks);
             self.evaluate_if_not_paused();
             return Err(e);
         }
